@@ -32,6 +32,7 @@ def oracle_serial(r: dict) -> list[str]:
         # publications of different topics within one operation are not ordered relative to each other:
         # process statement, then run number, then run records, then child starts
         order = {'pst': 0, 'prn': 1, 'pri': 2, 'cs:': 3}
+        rn_before = last_rn
         for t in sorted(toks, key=lambda t: order.get(t[:3], 9)):
             if t.startswith('pst:'):
                 displayed = t[4:]
@@ -43,7 +44,7 @@ def oracle_serial(r: dict) -> list[str]:
                 nxt = n + 1
             if t.startswith('pri:'):
                 n = int(t[4:].split('/')[0])
-                if last_rn is not None and n != last_rn:
+                if last_rn is not None and n != last_rn and not (n == rn_before and t.endswith('/finished')):
                     msgs.append(f'run record carries run number {n}, the current run is {last_rn}')
             if t.startswith('cs:'):
                 rn, st, a, b = t[3:].split('/')
